@@ -191,6 +191,9 @@ def run(ctx):
         cases.append(D.gen_case(ctx.rng, "r%d" % i, twins=(i % 8 == 7)))
     for i in range(16 if quick else 400):
         cases.append(D.gen_vm_case(ctx.rng, "vm%d" % i))
+    # fee delegation with / without amount around a dropped tx, sender repeating in the block
+    fd = D.feedeleg_family(ctx.rng, "fd")
+    cases += fd if not quick else ctx.rng.sample(fd, 24)
     # the block-generation deadline at every position of the candidate list
     cases += D.deadline_family(ctx.rng, "dl-fixed", ver=3, public=True)
     for i in range(1 if quick else 40):
@@ -255,7 +258,7 @@ def run(ctx):
             for s in pb.get("skipped") or []:
                 hist["skipped"] += 1
                 if s.get("leak"):
-                    fails.append(("a dropped transaction changed a BlockState component that Snapshot/Rollback do not restore: " + s["leak"],
+                    fails.append(("a dropped transaction left a trace in the producer's block state: " + s["leak"],
                                   {"case": D.strip(c), "tx_index": s["i"], "error": s.get("err"), "leak": s["leak"]}))
                 r = (s.get("err") or "")[:40]
                 hist["skip_reasons"][r] = hist["skip_reasons"].get(r, 0) + 1
